@@ -108,6 +108,16 @@ pub fn run(args: &Args) {
                 points.push(w.committed.clone());
             }
         }
+        // empty tables whose names sort before, between and after the data tables: every table of
+        // the catalog has to be verified whatever its neighbours are
+        {
+            let txn = w.db.as_ref().unwrap().begin_write().expect("begin_write");
+            for name in ["a-empty", "n-empty", "zz-empty"] {
+                let def: redb::TableDefinition<u64, &[u8]> = redb::TableDefinition::new(name);
+                txn.open_table(def).expect("open empty table");
+            }
+            txn.commit().expect("commit empty tables");
+        }
         let last = w.committed.clone();
         let data = w.backend.data.clone();
         w.readers.clear();
@@ -209,7 +219,9 @@ pub fn run(args: &Args) {
                         let mut img = image.clone();
                         apply(&mut img, a);
                         let path = crate::image::save("corrupt", &img);
-                        out.line(&format!("img recover {path} {page} {}", m.tablespecs()));
+                        let empty: Vec<(Vec<u8>, Vec<u8>)> = vec![];
+                        let eh = crate::table::dump_hash(&empty);
+                        out.line(&format!("img recover {path} {page} {} a-empty:normal:u64:bytes:0:{eh:016x} n-empty:normal:u64:bytes:0:{eh:016x} zz-empty:normal:u64:bytes:0:{eh:016x}", m.tablespecs()));
                     }
                 }
                 Verdict::Repaired(m, second) => {
